@@ -9,10 +9,18 @@ open Opus Opus.RangeCoder Opus.SilkSyms Opus.SilkSymsEnc Opus.SilkSymsFrozen.Icd
 
 /-! ### Decoding -/
 
+/- Kernel note.  A projection `(sym c T).1` makes the kernel evaluate `sym c T` to weak head normal form
+   whenever it has to compare two such terms that are not syntactically equal; with a concrete table `T`
+   that means running `ec_dec_icdf` symbolically (minutes, then "deep recursion").  Every proof below
+   therefore first replaces the concrete tables by variables (`generalize`). -/
+
 theorem decodeType_spec {lbrr v : Bool} {sig qoff : Nat} {t : List Op} {d : Dec} (hq : qoff ≤ 1)
     (hv : v = decide (sig ≠ 0)) (ht : encType lbrr sig qoff = .ok t) (h : Reads d t) :
     decodeType v d = (2 * sig + qoff, after d t) := by
   unfold encType at ht
+  unfold decodeType
+  generalize silk_type_offset_VAD_iCDF = T1 at ht ⊢
+  generalize silk_type_offset_no_VAD_iCDF = T0 at ht ⊢
   split at ht
   · cases ht
   split at ht
@@ -27,7 +35,7 @@ theorem decodeType_spec {lbrr v : Bool} {sig qoff : Nat} {t : List Op} {d : Dec}
       · omega
     have : v = true := by rw [hv]; exact decide_eq_true hs
     subst this
-    simp only [decodeType, if_true]
+    simp only [if_true]
     rw [sym_spec h]
     simp only
     congr 1
@@ -37,13 +45,16 @@ theorem decodeType_spec {lbrr v : Bool} {sig qoff : Nat} {t : List Op} {d : Dec}
     have hs : sig = 0 := by omega
     have : v = false := by rw [hv]; exact decide_eq_false (by omega)
     subst this
-    simp only [decodeType]
+    simp only [Bool.false_eq_true, if_false]
     exact sym_spec h
 
 theorem decodeGain0_spec {cc sig g0 : Nat} {d : Dec} (h : Reads d (encGain0 cc sig g0)) :
     decodeGain0 cc sig d = (g0, after d (encGain0 cc sig g0)) := by
   unfold encGain0 at h ⊢
   unfold decodeGain0
+  generalize silk_delta_gain_iCDF = T0 at h ⊢
+  generalize silk_gain_iCDF.getD sig [] = T1 at h ⊢
+  generalize silk_uniform8_iCDF = T2 at h ⊢
   by_cases hc : cc = 2
   · simp only [hc, if_true] at h ⊢
     exact sym_spec h
@@ -62,6 +73,8 @@ theorem nlsfResOne_spec {cb : NlsfCB} {e : Nat} {r : Int} {d : Dec} (h : Reads d
     nlsfResOne cb e d = (r + 4, after d (encNlsfRes cb e r)) := by
   unfold encNlsfRes at h ⊢
   unfold nlsfResOne
+  generalize silk_NLSF_EXT_iCDF = TX at h ⊢
+  generalize cb.ecIcdf.drop e = TE at h ⊢
   by_cases h1 : r ≥ 4
   · simp only [h1, if_true] at h ⊢
     rw [reads_cons_append] at h
@@ -123,33 +136,43 @@ theorem decodeNlsf_spec {rate : Rate} {sig n0 : Nat} {res : List Int} {d : Dec}
     decodeNlsf rate sig d = ((n0, res), after d (encNlsf rate sig n0 res)) := by
   unfold encNlsf at h ⊢
   unfold decodeNlsf
+  generalize (nlsfCB rate).cb1.drop (sig / 2 * (nlsfCB rate).nVectors) = T at h ⊢
   rw [reads_cons_append] at h
   simp only
   rw [sym_spec h.1]
   simp only
   rw [nlsfResLoop_spec _ _ _ _ (by rw [ecIx_length, hl]) h.2]
-  simp only [after_cons]
+  exact Prod.ext rfl (after_cons _ _ _).symm
 
 theorem decodeInterp_spec {nbSubfr ip : Nat} {d : Dec} (hi : nbSubfr ≠ 4 → ip = 4)
     (h : Reads d (encInterp nbSubfr ip)) : decodeInterp nbSubfr d = (ip, after d (encInterp nbSubfr ip)) := by
   unfold encInterp at h ⊢
   unfold decodeInterp
+  generalize silk_NLSF_interpolation_factor_iCDF = T at h ⊢
   by_cases h4 : nbSubfr = 4
   · simp only [h4, if_true] at h ⊢
     exact sym_spec h
   · simp only [h4, if_false] at h ⊢
-    rw [hi h4]; rfl
+    rw [hi h4, after_nil]
+
+theorem lag_split (lag : Int) (k : Nat) (hlag : 0 ≤ lag) :
+    ((lag.toNat / k * k + (lag.toNat - lag.toNat / k * k) : Nat) : Int) = lag := by
+  have := Nat.div_mul_le_self lag.toNat k
+  have e : lag.toNat / k * k + (lag.toNat - lag.toNat / k * k) = lag.toNat := by omega
+  rw [e]
+  omega
 
 theorem decodeLag_spec {rate : Rate} {cc prevSig : Nat} {prevLag lag : Int} {d : Dec} (hlag : 0 ≤ lag)
     (h : Reads d (encLag rate cc prevSig prevLag lag)) :
     decodeLag rate cc prevSig prevLag d = (lag, after d (encLag rate cc prevSig prevLag lag)) := by
-  have hk : 0 < rate.kHz / 2 := by cases rate <;> decide
   unfold encLag at h ⊢
   unfold decodeLag
+  generalize silk_pitch_delta_iCDF = TD at h ⊢
+  generalize silk_pitch_lag_iCDF = TL at h ⊢
+  generalize pitchLagLowBits rate = TB at h ⊢
   by_cases hc : cc = 2 ∧ prevSig = 2
-  · simp only [hc, and_self, if_true] at h ⊢
-    by_cases hf : lagDeltaFits cc prevSig prevLag lag = true
-    · simp only [hf, if_true, List.append_nil] at h ⊢
+  · by_cases hf : lagDeltaFits cc prevSig prevLag lag = true
+    · simp only [hc, and_self, if_true, hf, List.append_nil] at h ⊢
       rw [sym_spec h]
       simp only [lagDeltaFits, decide_eq_true_eq] at hf
       have hpos : (lag - prevLag + 9).toNat > 0 := by omega
@@ -157,8 +180,7 @@ theorem decodeLag_spec {rate : Rate} {cc prevSig : Nat} {prevLag lag : Int} {d :
       refine Prod.ext ?_ rfl
       simp only
       omega
-    · simp only [hf, if_false, Bool.false_eq_true] at h ⊢
-      rw [List.singleton_append] at h ⊢
+    · simp only [hc, and_self, if_true, hf, if_false, Bool.false_eq_true, List.singleton_append] at h ⊢
       rw [reads_cons_append, reads_cons_append] at h
       rw [sym_spec h.1]
       simp only [gt_iff_lt, Nat.lt_irrefl, if_false]
@@ -166,12 +188,7 @@ theorem decodeLag_spec {rate : Rate} {cc prevSig : Nat} {prevLag lag : Int} {d :
       simp only
       rw [sym_spec h.2.2]
       simp only [after_cons_cons]
-      refine Prod.ext ?_ rfl
-      simp only
-      have := Nat.div_mul_le_self lag.toNat (rate.kHz / 2)
-      have e : lag.toNat / (rate.kHz / 2) * (rate.kHz / 2) + (lag.toNat - lag.toNat / (rate.kHz / 2) * (rate.kHz / 2)) = lag.toNat := by omega
-      rw [e]
-      omega
+      exact Prod.ext (lag_split lag _ hlag) rfl
   · have hf : lagDeltaFits cc prevSig prevLag lag = false := by
       simp only [lagDeltaFits, decide_eq_false_iff_not]
       intro hh; exact hc ⟨hh.1, hh.2.1⟩
@@ -182,12 +199,33 @@ theorem decodeLag_spec {rate : Rate} {cc prevSig : Nat} {prevLag lag : Int} {d :
     simp only
     rw [sym_spec h.2]
     simp only [after_cons_cons]
-    refine Prod.ext ?_ rfl
-    simp only
-    have := Nat.div_mul_le_self lag.toNat (rate.kHz / 2)
-    have e : lag.toNat / (rate.kHz / 2) * (rate.kHz / 2) + (lag.toNat - lag.toNat / (rate.kHz / 2) * (rate.kHz / 2)) = lag.toNat := by omega
-    rw [e]
-    omega
+    exact Prod.ext (lag_split lag _ hlag) rfl
+
+theorem decodeLtp_spec {nbSubfr cc per scale : Nat} {ltp : List Nat} {d : Dec} (hl : ltp.length = nbSubfr)
+    (hsc : cc ≠ 0 → scale = 0)
+    (h : Reads d (ic per silk_LTP_per_index_iCDF ::
+      (encSyms ([silk_LTP_gain_iCDF_0, silk_LTP_gain_iCDF_1, silk_LTP_gain_iCDF_2].getD per []) ltp ++
+       (if cc = 0 then [ic scale silk_LTPscale_iCDF] else [])))) :
+    decodeLtp nbSubfr cc d = ((per, ltp, scale), after d (ic per silk_LTP_per_index_iCDF ::
+      (encSyms ([silk_LTP_gain_iCDF_0, silk_LTP_gain_iCDF_1, silk_LTP_gain_iCDF_2].getD per []) ltp ++
+       (if cc = 0 then [ic scale silk_LTPscale_iCDF] else [])))) := by
+  unfold decodeLtp
+  subst hl
+  generalize silk_LTP_per_index_iCDF = TP at h ⊢
+  generalize [silk_LTP_gain_iCDF_0, silk_LTP_gain_iCDF_1, silk_LTP_gain_iCDF_2] = TG at h ⊢
+  generalize silk_LTPscale_iCDF = TS at h ⊢
+  rw [reads_cons_append, reads_append] at h
+  rw [after_cons, after_append]
+  simp only
+  rw [sym_spec h.1]
+  simp only
+  rw [symLoop_spec _ _ _ h.2.1]
+  simp only
+  by_cases hc : cc = 0
+  · simp only [hc, if_true] at h ⊢
+    rw [sym_spec h.2.2]
+  · simp only [hc, if_false] at h ⊢
+    rw [hsc hc, after_nil]
 
 theorem decodeVoiced_spec {rate : Rate} {nbSubfr sig cc prevSig : Nat} {prevLag : Int} {ix : Indices} {d : Dec}
     (hlag : if sig = 2 then 0 ≤ ix.lagIndex else ix.lagIndex = 0)
@@ -201,37 +239,22 @@ theorem decodeVoiced_spec {rate : Rate} {nbSubfr sig cc prevSig : Nat} {prevLag 
   unfold encVoiced at h ⊢
   unfold decodeVoiced
   by_cases hs : sig = 2
-  · simp only [hs, if_true] at h hlag hltp ⊢
-    subst hltp
-    rw [reads_append, reads_append, reads_append] at h
-    rcases h with ⟨⟨⟨h1, h2⟩, h3⟩, h4⟩
-    rw [reads_cons_append] at h2
+  · simp only [hs, if_true, List.append_assoc, List.cons_append, List.nil_append] at h hlag hltp ⊢
+    generalize pitchContour rate nbSubfr = TC at h ⊢
+    rw [reads_append, reads_cons_append] at h
+    rw [after_append, after_cons]
     unfold decodePitchLtp
-    rw [decodeLag_spec hlag h1]
+    rw [decodeLag_spec hlag h.1]
     simp only
-    rw [sym_spec h2.1]
+    rw [sym_spec h.2.1]
     simp only
-    unfold decodeLtp
-    simp only
-    rw [sym_spec h2.2]
-    simp only
-    rw [after_append, after_cons_cons] at h3
-    rw [symLoop_spec _ _ _ h3]
-    simp only
-    by_cases hc : cc = 0
-    · simp only [hc, if_true] at h4 ⊢
-      simp only [after_append, after_cons_cons] at h4
-      rw [sym_spec h4]
-      simp only [after_append, after_cons_cons]
-    · simp only [hc, if_false] at h4 ⊢
-      rw [hsc (fun hh => hc hh.2)]
-      simp only [after_append, after_cons_cons, after_nil]
+    rw [decodeLtp_spec hltp (fun hc => hsc (fun hh => hc hh.2)) h.2.2]
   · simp only [hs, if_false] at h hlag hltp ⊢
     rw [hlag, hcon hs, hper hs, hsc (fun hh => hs hh.1), List.length_eq_zero_iff.mp hltp, after_nil]
 
 /-- `silk_decode_indices` inverts `silk_encode_indices`. -/
 theorem decodeIndices_spec {rate : Rate} {nbSubfr : Nat} {lbrr v : Bool} {cc prevSig : Nat} {prevLag : Int}
-    {ix : Indices} {ops : List Op} {d : Dec} (hix : IxOk rate nbSubfr v cc ix) (hnb : 1 ≤ nbSubfr)
+    {ix : Indices} {ops : List Op} {d : Dec} (hix : IxOk rate nbSubfr v cc ix)
     (hops : encodeIndices rate nbSubfr lbrr cc prevSig prevLag ix = .ok ops) (h : Reads d ops) :
     decodeIndices rate nbSubfr v cc prevSig prevLag d = (ix, after d ops) := by
   unfold encodeIndices at hops
@@ -240,9 +263,12 @@ theorem decodeIndices_spec {rate : Rate} {nbSubfr : Nat} {lbrr v : Bool} {cc pre
   rename_i t ht
   injection hops with hops
   subst hops
-  rw [reads_append, reads_append, reads_append, reads_append, reads_append, reads_append] at h
-  rcases h with ⟨⟨⟨⟨⟨⟨h1, h2⟩, h3⟩, h4⟩, h5⟩, h6⟩, h7⟩
   unfold decodeIndices
+  generalize silk_uniform4_iCDF = T4 at h ⊢
+  generalize silk_delta_gain_iCDF = TG at h ⊢
+  rw [reads_append, reads_append, reads_append, reads_append, reads_append, reads_append] at h
+  simp only [after_append] at h ⊢
+  rcases h with ⟨⟨⟨⟨⟨⟨h1, h2⟩, h3⟩, h4⟩, h5⟩, h6⟩, h7⟩
   rw [decodeType_spec hix.qoff hix.vad ht h1]
   have hq := hix.qoff
   have e2 : (2 * ix.signalType + ix.quantOffsetType) / 2 = ix.signalType := by omega
@@ -274,7 +300,6 @@ theorem decodeIndices_spec {rate : Rate} {nbSubfr : Nat} {lbrr v : Bool} {cc pre
   rw [decodeVoiced_spec hlag hcon hper hix.ltpLen hsc h6]
   simp only
   rw [sym_spec h7]
-  simp only [after_append]
   refine Prod.ext ?_ rfl
   simp only
   have hg : ix.gains.headD 0 :: ix.gains.tail = ix.gains := by
